@@ -15,6 +15,13 @@ REPLAY_DIR = os.path.join(VERIF, "replays")
 KNOWN = os.path.join(VERIF, "known_findings.json")
 
 EXIT_OK, EXIT_VIOLATION, EXIT_INCONCLUSIVE = 0, 1, 2
+# the tree under test: always /repo for the registered commands; KIO_REPO lets the seeded-change tooling
+# point the same checks at a scratch copy (tools/try_seed_copy.sh) without touching /repo
+REPO = os.environ.get("KIO_REPO", "/repo")
+if REPO != "/repo":
+    # never let a run against a scratch copy overwrite the evidence of /repo
+    EVIDENCE_DIR = os.path.join("/tmp/kv_seed", os.path.basename(REPO), "evidence")
+    REPLAY_DIR = os.path.join("/tmp/kv_seed", os.path.basename(REPO), "replays")
 
 ASSUMPTIONS = {
     "A1": "A1 boundary models of struct, io.BytesIO, datetime, uuid, math.isfinite agree with CPython 3.12 (differentially validated by `./check selftest` and at the start of each run)",
